@@ -249,8 +249,15 @@ func nextRangeIndexArgument(cmd string, name string, args Arguments) (int, error
 
 func nextRangeScoreIndexArgument(cmd string, name string, args Arguments) (float64, bool, error) {
 	str, err := args.NextString()
-	if err != nil || len(str) == 0 {
+	if err != nil {
 		return 0, false, newMissingArgumentError(cmd, name, err)
+	}
+	return parseRangeScoreIndex(cmd, name, str)
+}
+
+func parseRangeScoreIndex(cmd string, name string, str string) (float64, bool, error) {
+	if len(str) == 0 {
+		return 0, false, newMissingArgumentError(cmd, name, proto.ErrNil)
 	}
 	offset := 0
 	exclusive := false
